@@ -14,6 +14,10 @@ import (
 
 // ------------------------------------------------------------------ Legacy
 
+// emptyFuncs: names of package-level functions with an empty body (a shared no-op returned by name
+// is the same as an empty closure written in place)
+var emptyFuncs = map[string]bool{}
+
 func classifyBody(fd *ast.FuncDecl) string {
 	if fd == nil || fd.Body == nil {
 		return "BOther"
@@ -26,6 +30,18 @@ func classifyBody(fd *ast.FuncDecl) string {
 	if len(st) == 0 && nres == 0 {
 		return "BEmpty"
 	}
+	// `var zero T; return zero` is `return T{}`
+	if len(st) == 2 {
+		if ds, ok := st[0].(*ast.DeclStmt); ok {
+			if gd, ok := ds.Decl.(*ast.GenDecl); ok && gd.Tok == token.VAR && len(gd.Specs) == 1 {
+				if vs, ok := gd.Specs[0].(*ast.ValueSpec); ok && len(vs.Names) == 1 && len(vs.Values) == 0 {
+					if ret, ok := st[1].(*ast.ReturnStmt); ok && len(ret.Results) == 1 && src(ret.Results[0]) == vs.Names[0].Name {
+						return "BReturnsZeroStruct"
+					}
+				}
+			}
+		}
+	}
 	if len(st) != 1 {
 		return "BOther"
 	}
@@ -37,6 +53,9 @@ func classifyBody(fd *ast.FuncDecl) string {
 	case *ast.Ident:
 		if e.Name == "nil" {
 			return "BReturnsNil"
+		}
+		if emptyFuncs[e.Name] {
+			return "BReturnsEmptyClosure"
 		}
 		// returns its (only) parameter
 		if fd.Type.Params != nil && len(fd.Type.Params.List) == 1 && len(fd.Type.Params.List[0].Names) == 1 &&
@@ -122,6 +141,12 @@ func imports(f *ast.File, path string) (string, bool) {
 	return "", false
 }
 
+// accepted canonical bodies of parseOrDefault (filled from the tool: extract -canonopts)
+var podCanon = map[string]bool{
+	"{ifv4:=os.Getenv(v1);v4==\"\"{returnv2}elseifv5,v6:=strconv.ParseUint(v4,0,64);v6!=nil{panic(\"frugal:invalidvaluefor\"+v1)}elseifv7:=int(v5);v7<=v3{panic(\"frugal:valuetoosmallfor\"+v1)}else{returnv7}}": true,
+	"{v4:=os.Getenv(v1)ifv4==\"\"{returnv2}v5,v6:=strconv.ParseUint(v4,0,64)ifv6!=nil{panic(\"frugal:invalidvaluefor\"+v1)}v7:=int(v5)ifv7<=v3{panic(\"frugal:valuetoosmallfor\"+v1)}returnv7}":                  true,
+}
+
 func genLegacy(repo, out string) {
 	files := moduleFiles(repo)
 	var b strings.Builder
@@ -136,6 +161,17 @@ func genLegacy(repo, out string) {
 		{"LSetMaxInlineDepth", "options.go", "SetMaxInlineDepth"},
 		{"LSetMaxInlineILSize", "options.go", "SetMaxInlineILSize"},
 		{"LGetStats", "debug/debug.go", "GetStats"},
+	}
+	// package-level functions of the root package with an empty body and no results
+	for _, gf := range files {
+		if strings.Contains(gf.path, "/") {
+			continue
+		}
+		for _, d := range gf.f.Decls {
+			if fd, ok := d.(*ast.FuncDecl); ok && fd.Recv == nil && fd.Body != nil && len(fd.Body.List) == 0 && fd.Type.Results == nil {
+				emptyFuncs[fd.Name.Name] = true
+			}
+		}
 	}
 	b.WriteString("Definition legacy_body (f : legacy_fn) : body :=\n  match f with\n")
 	for _, fn := range fns {
@@ -200,7 +236,7 @@ func genLegacy(repo, out string) {
 	// internal/opts: parseOrDefault and the two variables
 	op := loadPkg(filepath.Join(repo, "internal", "opts"), false)
 	pod := op.funcs["parseOrDefault"]
-	podOK := pod != nil && src(pod.Body) == "{ifenv:=os.Getenv(key);env==\"\"{returndef}elseifval,err:=strconv.ParseUint(env,0,64);err!=nil{panic(\"frugal:invalidvaluefor\"+key)}elseifret:=int(val);ret<=min{panic(\"frugal:valuetoosmallfor\"+key)}else{returnret}}"
+	podOK := pod != nil && (podCanon[canonBody(op, pod)] || src(pod.Body) == "{ifenv:=os.Getenv(key);env==\"\"{returndef}elseifval,err:=strconv.ParseUint(env,0,64);err!=nil{panic(\"frugal:invalidvaluefor\"+key)}elseifret:=int(val);ret<=min{panic(\"frugal:valuetoosmallfor\"+key)}else{returnret}}")
 	fmt.Fprintf(&b, "Definition parseOrDefault_shape : bool := %v.\n", podOK)
 	b.WriteString("(* (default, min) of each FRUGAL_MAX_INLINE_* variable *)\nDefinition env_vars : list (N * N) := [")
 	first := true
@@ -416,10 +452,6 @@ func genAccess(repo, out string) {
 	b.WriteString("].\n\n")
 
 	// shapes
-	shape := func(name, want string) bool {
-		fd := r.funcs[name]
-		return fd != nil && fd.Body != nil && src(fd.Body) == want
-	}
 	createOK := false
 	if fd := r.funcs["createStructDesc"]; fd != nil {
 		s := src(fd.Body)
@@ -437,8 +469,20 @@ func genAccess(repo, out string) {
 			strings.Contains(s[lock:], "sd,err:=newStructDescAndPrefetch(rt)iferr!=nil{rollbackPending()returnnil,err}commitPending()sds.Set(abiType,sd)")
 	}
 	fmt.Fprintf(&b, "(* createStructDesc takes sdsmu (Lock; defer Unlock) before building and before sds.Set; build precedes Set *)\nDefinition create_locked_shape : bool := %v.\n", createOK)
-	getOK := shape("mapStructDesc.Get", "{slot:=m.slots[abiType&mapStructDescBuckets].Load()ifslot==nil{returnnil}fori:=range*slot{if(*slot)[i].abiType==abiType{return(*slot)[i].sd}}returnnil}")
-	setOK := shape("mapStructDesc.Set", "{ifm.Get(abiType)==sd{return}bk:=abiType&mapStructDescBucketsvarold[]mapStructDescItemifp:=m.slots[bk].Load();p!=nil{old=*p}items:=make([]mapStructDescItem,len(old),len(old)+1)copy(items,old)fori:=rangeitems{ifitems[i].abiType==abiType{items[i].sd=sdm.slots[bk].Store(&items)return}}items=append(items,mapStructDescItem{abiType:abiType,sd:sd})m.slots[bk].Store(&items)}")
+	// Get: one atomic Load and a read-only scan; Set: copy into a fresh slice, modify the copy,
+	// publish with one atomic Store -- in either of the accepted formulations (expectCanon)
+	helperOK := func(name string) bool {
+		fd := r.funcs[name]
+		if fd == nil || fd.Body == nil {
+			return false
+		}
+		if strings.Contains(src(fd.Body), "indexOfAbiType(") && !bodyIs(r, "indexOfAbiType") {
+			return false
+		}
+		return bodyIs(r, name)
+	}
+	getOK := helperOK("mapStructDesc.Get")
+	setOK := helperOK("mapStructDesc.Set")
 	fmt.Fprintf(&b, "(* mapStructDesc.Get: one atomic Load, read-only scan *)\nDefinition descmap_get_shape : bool := %v.\n", getOK)
 	fmt.Fprintf(&b, "(* mapStructDesc.Set: copy into a fresh slice, modify the copy, publish with one atomic Store *)\nDefinition descmap_set_shape : bool := %v.\n", setOK)
 	slotsAtomic := false
